@@ -21,6 +21,7 @@ import ast
 
 from .cfg import CFG
 from .loader import own_nodes
+from .reach import ReachDefs
 
 MUTATORS = {"append", "extend", "add", "update", "insert", "setdefault", "appendleft", "__ior__"}
 OUTPARAM_METHODS = {"readinto": 0, "readinto1": 0, "recv_into": 0}
@@ -39,6 +40,7 @@ class Flow:
         self.stop = set(stop_funcs)      # Func objects whose parameters are sources
         self.hook = hook                  # hook(fn, name, what, payload, flow) -> frozenset | None
         self._cfg = {}
+        self._rd = {}
         self._active = set()
         self._mutdefs = {}
         self._attrstores = {}
@@ -276,8 +278,45 @@ class Flow:
                 return fs(("global", mod.name, name))
         return fs(("global", "builtins", name))
 
+    def _reaching_filter(self, name, blist, f, use):
+        """Keep only the bindings whose definitions reach the use (local flow-sensitivity)."""
+        if use is None or f is None:
+            return blist
+        node = self.cfg_node(f, use)
+        if node is None:
+            return blist
+        rd = self._rd.get(f)
+        if rd is None:
+            rd = self._rd[f] = ReachDefs(f, self.cfg(f))
+        defs = rd.reaching(name, node)
+        if not defs:
+            return blist
+        # a use inside a loop/with header that defines the name itself (for x in f(x)) is fine: reaching = entry state
+        keep = []
+        for what, payload in blist:
+            ok = False
+            for d in defs:
+                if what == "param":
+                    ok = d.kind == "param"
+                elif what in ("value", "with", "iter"):
+                    ok = d.value is payload
+                elif what == "unpack":
+                    ok = isinstance(d.value, tuple) and d.value[1] is payload[0]
+                elif what == "iterunpack":
+                    ok = isinstance(d.value, tuple) and d.value[1] is payload[0]
+                elif what == "aug":
+                    ok = d.value is payload
+                else:
+                    ok = True
+                if ok:
+                    break
+            if ok:
+                keep.append((what, payload))
+        return keep or blist
+
     def _bindings(self, name, blist, f, use, env, depth):
         out = set()
+        blist = self._reaching_filter(name, blist, f, use)
         for what, payload in blist:
             if self.hook is not None:
                 r = self.hook(f, name, what, payload, self, env, depth)
